@@ -16,13 +16,14 @@ Rust `?`/unwind does.  Transcription table:
   check_compression_ratio               ↦ `ratioOk`
   decode_ascii_hex_with_limit           ↦ `hexDec`   (incl. the quirk that an odd digit before `>`
                                             does NOT stop the loop: `low` was replaced by `'0'`)
-  decode_ascii85_with_limit             ↦ `a85Dec`   (`<~` handling incl. the swallowed byte after a
-                                            lone `<`; checked u32 arithmetic → `panic mul/add`)
+  decode_ascii85_with_limit             ↦ `a85Dec`   (`<~` skipped only when both bytes are there;
+                                            `ascii85_group_value`: checked Horner sum → decode error)
   decode_run_length_with_limit          ↦ `rlDec`
   LzwBitReader::read_bits               ↦ `readBits`
   decode_lzw_with_limit                 ↦ `lzwDec`   (no limit check on the first code after Clear)
-  apply_predictor                       ↦ `applyPredictor` (predictor 2 and every other value:
-                                            data returned unchanged)
+  apply_predictor                       ↦ `applyPredictor` (1: unchanged, 2: `tiffPredictor`, 10–15: PNG,
+                                            every other value: data returned unchanged)
+  apply_tiff_predictor                  ↦ `tiffPredictor`, `tiffUnRow`
   apply_png_predictor_advanced + rows   ↦ `pngAdvanced`, `unfilterRow`, `paeth`
   get_filter_params                     ↦ `filterParams`
   decode_stream / apply_filter_with_params ↦ `decodeStream` / `applyFilterWithParams`
@@ -97,6 +98,9 @@ def copyWithLimit (data : List Nat) (L : Nat) : Res (List Nat) :=
 /-- `u8::is_ascii_whitespace`: SP, HT, LF, FF, CR (NOT NUL, which PDF also counts as white space) -/
 def isAsciiWs (b : Nat) : Bool := b == 32 || b == 9 || b == 10 || b == 12 || b == 13
 
+/-- `is_pdf_whitespace`: ISO 32000-1 Table 1 = NUL + the above -/
+def isPdfWs (b : Nat) : Bool := b == 0 || isAsciiWs b
+
 def hexDigit? (c : Nat) : Option Nat :=
   if 48 ≤ c ∧ c ≤ 57 then some (c - 48)
   else if 65 ≤ c ∧ c ≤ 70 then some (c - 55)
@@ -133,7 +137,7 @@ def hexGo (L : Nat) : Nat → List Nat → Res (List Nat)
       | .ext w => .ext w
 
 def hexDec (L : Nat) (data : List Nat) : Res (List Nat) :=
-  hexGo L 0 (data.filter (fun b => !isAsciiWs b))
+  hexGo L 0 (data.filter (fun b => !isPdfWs b))
 
 /-! ## ASCII85Decode -/
 
@@ -141,17 +145,26 @@ def pow85 : Nat → Nat
   | 0 => 1
   | k + 1 => 85 * pow85 k
 
-/-- `group.iter().enumerate().map(|(i, &ch)| (ch - b'!') as u32 * 85u32.pow(4 - i as u32)).sum::<u32>()`
-in a build with overflow checks: `i` = index of the head of `g`, `s` = running sum. -/
-def a85Sum : Nat → Nat → List Nat → Res Nat
+/-- the sum as it was before the repair of C08-F1 (`… as u32 * 85u32.pow(4 - i) … .sum::<u32>()` in a
+build with overflow checks): `i` = index of the head of `g`, `s` = running sum.  Kept for the
+regression statement `C08_regression_a85_overflow`. -/
+def a85SumOld : Nat → Nat → List Nat → Res Nat
   | _, s, [] => .ok s
   | i, s, c :: g =>
     let t := (c - 33) * pow85 (4 - i)
     if t ≥ two32 then .panic .mul
     else if s + t ≥ two32 then .panic .add
-    else a85Sum (i + 1) (s + t) g
+    else a85SumOld (i + 1) (s + t) g
 
-def a85Value (g : List Nat) : Res Nat := a85Sum 0 0 g
+/-- `ascii85_group_value`: `try_fold(0u32, |v, ch| v.checked_mul(85)?.checked_add(ch - b'!')?)`;
+an overflow is a `StreamDecodeError` -/
+def a85Horner : Nat → List Nat → Res Nat
+  | v, [] => .ok v
+  | v, c :: g =>
+    if v * 85 + (c - 33) ≥ two32 then .err .decode
+    else a85Horner (v * 85 + (c - 33)) g
+
+def a85Value (g : List Nat) : Res Nat := a85Horner 0 g
 
 def be4 (v : Nat) : List Nat := [(v / 16777216) % 256, (v / 65536) % 256, (v / 256) % 256, v % 256]
 
@@ -189,15 +202,21 @@ def a85Go (L : Nat) : Nat → List Nat → List Nat → Res (List Nat)
       else a85Go L n (g ++ [c]) rest
     else .err .decode
 
-/-- "Skip optional <~ prefix" — a lone `<` is kept as data but the byte after it is consumed -/
+/-- "Skip optional <~ prefix": only when the first two (non-white-space) bytes are `<` `~` -/
 def a85Start (cs : List Nat) : List Nat :=
+  match cs with
+  | 60 :: 126 :: rest => rest
+  | _ => cs
+
+/-- the skipper before the repair of C07-F3: a lone `<` was kept but the byte after it consumed -/
+def a85StartOld (cs : List Nat) : List Nat :=
   match cs with
   | 60 :: 126 :: rest => rest
   | 60 :: _ :: rest => 60 :: rest
   | _ => cs
 
 def a85Dec (L : Nat) (data : List Nat) : Res (List Nat) :=
-  a85Go L 0 [] (a85Start (data.filter (fun b => !isAsciiWs b)))
+  a85Go L 0 [] (a85Start (data.filter (fun b => !isPdfWs b)))
 
 /-! ## RunLengthDecode -/
 
@@ -391,7 +410,7 @@ def pngAdvanced (data : List Nat) (d : Dict) : Res (List Nat) :=
   let columns := asUsize (d.columns.asInt.getD 1)
   let bpc := asUsize (d.bpc.asInt.getD 8)
   let colors := asUsize (d.colors.asInt.getD 1)
-  if bpc * colors ≥ two64 then .panic .mul
+  if bpc * colors ≥ two64 then .err .decode    -- `bpc.checked_mul(colors)`
   else
     let bpp := (bpc * colors + 7) / 8
     -- checked_mul / checked_mul / checked_add(7) / 8, then checked_add(1)
@@ -404,11 +423,71 @@ def pngAdvanced (data : List Nat) (d : Dict) : Res (List Nat) :=
       if data.length % rowSize ≠ 0 then .err .decode
       else pngRows bpp rowBytes (data.length / rowSize) [] data
 
+/-! ## TIFF predictor 2 -/
+
+/-- 8 bits of a byte, most significant first -/
+def bitsOfNat : Nat → Nat → List Bool
+  | 0, _ => []
+  | w + 1, x => (x / 2 ^ w % 2 == 1) :: bitsOfNat w x
+
+def natOfBits (bs : List Bool) : Nat := bs.foldl (fun acc b => acc * 2 + (if b then 1 else 0)) 0
+
+/-- consecutive groups of `k` elements (`fuel` > length; a shorter last group is kept) -/
+def groupsOf {α} (k : Nat) : Nat → List α → List (List α)
+  | 0, _ => []
+  | fuel + 1, l => if l.isEmpty ∨ k = 0 then [] else l.take k :: groupsOf k fuel (l.drop k)
+
+/-- `cur.wrapping_add(left) & mask` along the samples: `seen` = samples already reconstructed -/
+def tiffUndiff (colors bpc : Nat) : Array Nat → List Nat → List Nat
+  | _, [] => []
+  | seen, x :: xs =>
+    let y := if seen.size < colors then x else (x + seen.getD (seen.size - colors) 0) % 2 ^ bpc
+    y :: tiffUndiff colors bpc (seen.push y) xs
+
+/-- one row of `apply_tiff_predictor`: for 8 bits per component this is the PNG Sub recurrence with
+stride `colors`; for 16 and for 1/2/4 bits the row is taken apart into `samples` samples of `bpc`
+bits (most significant first), pad bits after the last sample stay as they are -/
+def tiffUnRow (colors samples bpc : Nat) (row : List Nat) : List Nat :=
+  if bpc = 8 then unfilterRow 1 colors [] row
+  else
+    let bits := row.flatMap (bitsOfNat 8)
+    let smp := (groupsOf bpc (samples + 1) (bits.take (samples * bpc))).map natOfBits
+    let out := (tiffUndiff colors bpc #[] smp).flatMap (bitsOfNat bpc) ++ bits.drop (samples * bpc)
+    (groupsOf 8 (row.length + 1) out).map natOfBits
+
+/-- `for row in result.chunks_exact_mut(row_bytes)`: a shorter tail is left untouched -/
+def tiffRows (rb colors samples bpc : Nat) : Nat → List Nat → List Nat
+  | 0, data => data
+  | fuel + 1, data =>
+    if data.length < rb then data
+    else tiffUnRow colors samples bpc (data.take rb) ++ tiffRows rb colors samples bpc fuel (data.drop rb)
+
+/-- `apply_tiff_predictor` -/
+def tiffPredictor (data : List Nat) (d : Dict) : Res (List Nat) :=
+  let columns := asUsize (d.columns.asInt.getD 1)
+  let bpc := asUsize (d.bpc.asInt.getD 8)
+  let colors := asUsize (d.colors.asInt.getD 1)
+  if ¬ (bpc = 1 ∨ bpc = 2 ∨ bpc = 4 ∨ bpc = 8 ∨ bpc = 16) then .err .decode
+  else if columns * colors ≥ two64 then .err .decode
+  else if columns * colors * bpc ≥ two64 then .err .decode
+  else if columns * colors * bpc + 7 ≥ two64 then .err .decode
+  else
+    let rowBytes := (columns * colors * bpc + 7) / 8
+    if rowBytes = 0 then .ok data
+    else .ok (tiffRows rowBytes colors (columns * colors) bpc (data.length + 1) data)
+
 /-- `apply_predictor` -/
 def applyPredictor (data : List Nat) (predictor : Nat) (d : Dict) : Res (List Nat) :=
   if predictor = 1 then .ok data
+  else if predictor = 2 then tiffPredictor data d
   else if 10 ≤ predictor ∧ predictor ≤ 15 then pngAdvanced data d
-  else .ok data   -- includes /Predictor 2 (TIFF): returned undecoded
+  else .ok data   -- unknown predictor: returned unchanged
+
+/-- `apply_predictor` before the repair of C07-F1: no arm for 2 -/
+def applyPredictorOld (data : List Nat) (predictor : Nat) (d : Dict) : Res (List Nat) :=
+  if predictor = 1 then .ok data
+  else if 10 ≤ predictor ∧ predictor ≤ 15 then pngAdvanced data d
+  else .ok data
 
 /-! ## Filter chains -/
 
@@ -499,7 +578,8 @@ def applyFilterWithParams (E : Ext) (data : List Nat) (f : FName) (p : Option Di
     | .dct => .ext 0
     | _ => .err .syntax
   stage.bind fun result =>
-    match p with
+    -- `params.filter(|_| applies_predictor)`: /Predictor belongs to Flate and LZW only
+    match (if f = .flate ∨ f = .lzw then p else none) with
     | some d =>
       match d.predictor.asInt with
       | some pr =>
@@ -562,7 +642,11 @@ def boundedStage (E : Ext) (L : Nat) (input : List Nat) (f : FName) (p : Option 
 /-- the loop; `cur = none` ↔ `result == None` -/
 def boundedGo (E : Ext) (L : Nat) (p : ParmSpec) (data : List Nat) :
     Nat → List FName → Option (List Nat) → Res (List Nat)
-  | _, [], cur => .ok (cur.getD [])         -- `result.unwrap_or_default()`
+  | _, [], cur =>
+    -- `match result { Some(decoded) => Ok(decoded), None => copy_with_limit(data, max_bytes) }`
+    match cur with
+    | some decoded => .ok decoded
+    | none => copyWithLimit data L
   | i, f :: fs, cur =>
     if f = .unknown then .err .syntax
     else (boundedStage E L (cur.getD data) f (filterParams p i)).bind fun r =>
